@@ -26,7 +26,21 @@ def main(argv):
     only = argv[argv.index("--only") + 1] if "--only" in argv else None
     seed = int(os.environ.get("VERIF_SEED", "0") or 0)
     from harness import run
-    return run.main(prop, tier, seed, only=only)
+    t0 = __import__("time").time()
+    try:
+        return run.main(prop, tier, seed, only=only)
+    except BaseException as e:  # noqa  (import failure of the code under test, bug in a property module, ...): a harness error, never a verdict
+        import json
+        import traceback
+        msg = f"{type(e).__name__}: {e}"
+        print("HARNESS-ERROR: " + msg)
+        traceback.print_exc()
+        os.makedirs(run.EVIDENCE_DIR, exist_ok=True)
+        json.dump({"property_id": prop.upper(), "tier": tier, "seed": seed, "level": "other",
+                   "coverage": {"explanation": "the check could not run: " + msg, "evaluations": 0, "distinct_nontrivial": 0, "harness_error": msg, "samples": []},
+                   "assumptions": [], "wall_s": round(__import__("time").time() - t0, 2), "violations": 0},
+                  open(os.path.join(run.EVIDENCE_DIR, f"{prop.upper()}.json"), "w"), indent=1)
+        return 3
 
 
 if __name__ == "__main__":
